@@ -45,22 +45,23 @@ func (c cfg) nthRoot() uint64 {
 }
 
 type env struct {
-	cfg  cfg
-	rp   rlwe.Parameters
-	pp   rlwe.ParameterProvider
-	ck   ckks.Parameters
-	bg   bgv.Parameters
-	kgen *rlwe.KeyGenerator
-	sk   *rlwe.SecretKey
-	enc  *rlwe.Encryptor
-	dec  *rlwe.Decryptor
-	cke  *ckks.Encoder
-	bge  *bgv.Encoder
-	nth  uint64
-	N    int
-	S    int // order of the rotation group = slots per row at full packing
-	keys map[uint64]*rlwe.GaloisKey
-	B, h float64 // worst-case |e|_inf of one error sample, worst-case l1 norm of the secret
+	cfg    cfg
+	rp     rlwe.Parameters
+	pp     rlwe.ParameterProvider
+	ck     ckks.Parameters
+	bg     bgv.Parameters
+	kgen   *rlwe.KeyGenerator
+	sk     *rlwe.SecretKey
+	enc    *rlwe.Encryptor
+	dec    *rlwe.Decryptor
+	cke    *ckks.Encoder
+	bge    *bgv.Encoder
+	nth    uint64
+	N      int
+	S      int // order of the rotation group = slots per row at full packing
+	keys   map[uint64]*rlwe.GaloisKey
+	inMeta *rlwe.MetaData // metadata of the last fresh ciphertext
+	B, h   float64        // worst-case |e|_inf of one error sample, worst-case l1 norm of the secret
 }
 
 func (cf cfg) build() (e *env, err error) {
@@ -229,7 +230,14 @@ func (v *evalr) add(a, b, c *rlwe.Ciphertext) error {
 	return nil
 }
 
+// newCt allocates a receiver the way in-tree callers do (scheme-level constructor).
 func (e *env) newCt(level int) *rlwe.Ciphertext {
+	switch e.cfg.Scheme {
+	case "ckks":
+		return ckks.NewCiphertext(e.ck, 1, level)
+	case "bgv":
+		return bgv.NewCiphertext(e.bg, 1, level)
+	}
 	return rlwe.NewCiphertext(e.pp, 1, level)
 }
 
